@@ -36,6 +36,17 @@ inductive Once where
   | fresh | running (t : Nat) | done
   deriving Repr, DecidableEq
 
+/-- the classes of write errors `closeOnWriteErr` distinguishes (it must close on every one of them; the
+    class only decides whether the error is logged) -/
+inductive ErrClass where
+  | generic      -- any other error
+  | closedPipe   -- io.ErrClosedPipe
+  | epipe        -- *net.OpError wrapping EPIPE
+  | connReset    -- *net.OpError wrapping ECONNRESET  (errs.IsConnClosedErr)
+  | netClosed    -- *net.OpError wrapping net.ErrClosed (errs.IsConnClosedErr)
+  | timeout      -- *net.OpError wrapping os.ErrDeadlineExceeded
+  deriving Repr, DecidableEq
+
 /-- public operations on the connection (by a goroutine or from inside a session handler) -/
 inductive Api where
   | close (known : Bool)   -- Close() / CloseUnknown()
@@ -43,7 +54,7 @@ inductive Api where
   | writeFlush             -- WritePacket(p) / Write(payload)
   | buffer                 -- BufferPacket(p) / BufferPayload(payload)
   | flush                  -- Flush()
-  | failNet                -- fault injection: the underlying net.Conn starts failing writes
+  | failNet (cls : ErrClass) -- fault injection: the underlying net.Conn starts failing writes with this error
   | setHandler (h : Nat)   -- SetActiveSessionHandler
   | guardedClose           -- `if !Closed(c) { CloseUnknown(c) }` (serverConnection.disconnect0)
   deriving Repr, DecidableEq
@@ -71,7 +82,8 @@ structure Conn where
   cancelled : Bool := false     -- ctx.Err() != nil, i.e. netmc.Closed(c)
   netClosed : Bool := false     -- c.c.Close() was called
   known : Bool := false
-  failing : Bool := false
+  failing : Option ErrClass := none   -- the write error the net.Conn currently returns
+  werr : Bool := false          -- ghost: some write/flush hit an error (closeOnWriteErr was entered)
   buffered : Bool := false
   active : Option Nat := none   -- active session handler
   handlers : List Handler := []
@@ -108,7 +120,7 @@ def effApi (c : Conn) (t : Nat) (a : Api) (rep : Bool) : Option (Conn × List Ac
     if c.cancelled then some ({ c with results := record c rep t false .closed }, [])
     else some ({ c with buffered := true, results := record c rep t false .ok }, [])
   | .flush => some (c, [.netFlush rep])
-  | .failNet => some ({ c with failing := true }, [])
+  | .failNet cls => some ({ c with failing := some cls }, [])
   | .setHandler h => some ({ c with active := some h }, [])
   | .guardedClose =>
     if c.cancelled then some (c, []) else some (c, [.api (.close false) false])
@@ -118,8 +130,9 @@ def effect (recover : Bool) (c : Conn) (t : Nat) (act : Act) : Option (Conn × L
   match act with
   | .api a rep => effApi c t a rep
   | .netFlush rep =>
-    if c.netClosed || (c.failing && c.buffered) then
-      some ({ c with results := record c rep t false .other }, [.api (.close true) false])
+    if c.netClosed || (c.failing.isSome && c.buffered) then
+      -- closeOnWriteErr(err): `c.Close()` for EVERY class of error, then return the error
+      some ({ c with werr := true, results := record c rep t false .other }, [.api (.close true) false])
     else some ({ c with buffered := false, results := record c rep t false .ok }, [])
   | .body 0 rep => some ({ c with known := true }, [.body 1 rep])
   | .body 1 rep => some ({ c with cancelled := true }, [.body 2 rep])
@@ -191,7 +204,7 @@ def wApi : Api → Nat
   | .writeFlush => 5
   | .buffer => 1
   | .flush => 4
-  | .failNet => 1
+  | .failNet _ => 1
   | .setHandler _ => 1
   | .guardedClose => 3
 
